@@ -177,7 +177,8 @@ def engine_sim(c, name, menu, lines="Lines4", maxlines=10, num=2000, modes=("bat
     k["Lazy"] = True
     k["MinLines"] = minlines
     r = tlc("MC_Engine", cfg_text(constants=k, invariants=(list(invs) if not dev else ["TypeOK"]) + ["Emit"]), "engine-sim-" + name, workers=1, timeout=1500,
-            simulate="num=%d" % num, sim_depth=4 * maxlines + 20)
+            simulate="num=%d" % num, sim_depth=4 * maxlines + 20,
+            sim_seed=vlib.seed() * 1000 + int(c.pid[1:]) if c.pid[1:].isdigit() else None)        # each property's check draws its own random behaviours
     if r.violated or r.error:
         expect_holds(r, "Engine simulation " + name)
     c.states += r.replays; c.transitions += r.generated
@@ -188,6 +189,13 @@ def engine_sim(c, name, menu, lines="Lines4", maxlines=10, num=2000, modes=("bat
     c.add_report(rep, ENGINE_WHAT)
     c.extra.setdefault("configs", []).append({"name": "sim-" + name, "menu": menu, "lines": lines, "max_lines": maxlines, "simulated_behaviours": r.replays,
                                               "behaviours_replayed": rep.get("cases", 0), "tlc_s": round(r.wall, 1), "replay_s": round(time.time() - t_r, 1)})
+
+
+def engine_union(c, t, joins=True):
+    """random inputs over the union of all statement menus (every engine-based check runs it: shapes kept for one property are exercised under the others too)"""
+    engine_sim(c, "union", "UnionMenu", lines="LinesUnion", maxlines=8, num=1500 if t else 160, modes=("batch", "incr"), minlines=2)
+    if joins:
+        engine_sim(c, "union-join", "JoinUnionMenu", lines="LinesJ", maxlines=6, num=600 if t else 60, modes=("batch", "incr"), minlines=1)
 
 
 def engine_follow_run(c, name, menu, lines="Lines3", maxlines=3, tdefs=("plain",), sample=1500, invs=("TypeOK", "FollowLimit", "IncrRefinesSem", "IncrSelectRefinesSem")):
@@ -232,6 +240,7 @@ def check_C04(tier):
     # HAVING and DISTINCT together judge every group on its own key and aggregates
     engine_run(c, "agg-distinct-having", "DistinctMenu", lines="Lines4", maxlines=3, maxfiles=1, tdefs=("plain",), modes=("batch",))
     engine_sim(c, "agg", "AggMenu", lines="LinesRich", maxlines=10, num=2500 if t else 200, modes=("batch",))
+    engine_union(c, t)
     c.rule, c.assumptions, c.exhaustive = ENGINE_RULE, ENGINE_ASSUME, True
     return c.finish()
 
@@ -250,6 +259,7 @@ def check_C03(tier):
     trace_check(c, "expr", "Trace_Expr", 12000 if t else 4000, "expr", "random expression trees vs Expr.Eval", constants={"Dev": set()}, rounds=3 if t else 1, env={"TZ": "UTC"})
     laws_trace(c, 2 if t else 1, 300 if t else 100)
     engine_sim(c, "select", "SelectMenu", lines="LinesRich", maxlines=10, num=1500 if t else 120)
+    engine_union(c, t)
     c.rule, c.assumptions, c.exhaustive = ENGINE_RULE, ENGINE_ASSUME, True
     return c.finish()
 
@@ -269,6 +279,7 @@ def check_C05(tier):
     # the pairs a LIMIT keeps are the first of the ordered pair list, also when WHERE / DISTINCT reject earlier partners of a line
     engine_run(c, "join-limit", "LimitJoinMenu", lines="LinesJ", maxlines=3 if t else 2, maxfiles=1, tdefs=("plain",))
     engine_sim(c, "join", "JoinMenu", lines="LinesJ", maxlines=8, num=1500 if t else 120, modes=("batch",))
+    engine_union(c, t)
     c.rule, c.assumptions, c.exhaustive = ENGINE_RULE, ENGINE_ASSUME, True
     return c.finish()
 
@@ -282,6 +293,7 @@ def check_C07(tier):
     laws_trace(c, 2 if t else 1, 300 if t else 100)
     engine_sim(c, "limit", "LimitMenu", lines="Lines4", maxlines=10, num=2000 if t else 150, modes=("batch",))
     engine_sim(c, "limit-join", "LimitJoinMenu", lines="LinesJ", maxlines=8, num=1000 if t else 80, modes=("batch",))
+    engine_union(c, t)
     c.rule, c.assumptions, c.exhaustive = ENGINE_RULE, ENGINE_ASSUME, True
     return c.finish()
 
@@ -293,6 +305,7 @@ def check_C08(tier):
     # DISTINCT with a join: duplicate lines of the joined file still count for aggregates, equal pairs are removed for SELECT
     engine_run(c, "distinct-join", "JoinMenu", lines="LinesJ", maxlines=3 if t else 2, maxfiles=1, tdefs=("plain",))
     engine_sim(c, "distinct", "DistinctMenu", lines="LinesRich", maxlines=12, num=2000 if t else 150)
+    engine_union(c, t)
     c.rule, c.assumptions, c.exhaustive = ENGINE_RULE, ENGINE_ASSUME, True
     return c.finish()
 
@@ -312,6 +325,7 @@ def check_C11(tier):
     engine_sim(c, "incr", "AggMenu", lines="LinesRich", maxlines=10, num=2000 if t else 150, modes=("incr",))
     engine_sim(c, "incr-core", "CoreMenu", lines="Lines4", maxlines=12, num=1000 if t else 80, modes=("incr",))
     engine_sim(c, "incr-percentile-long", "PercentileZeroMenu", lines="LinesAroundZero", maxlines=60, num=300 if t else 24, modes=("incr",), invs=["TypeOK", "IncrRefinesSem"], minlines=40)
+    engine_union(c, t)
     c.rule, c.assumptions, c.exhaustive = ENGINE_RULE, ENGINE_ASSUME, True
     return c.finish()
 
@@ -346,6 +360,7 @@ def check_C06(tier):
     engine_run(c, "noise-long", "CoreLimitMenu", lines="LinesNoiseLong", maxlines=3, maxfiles=2 if t else 1, modes=("batch", "incr"), tdefs=("anch",))
     laws_trace(c, 2 if t else 1, 300 if t else 100)
     engine_sim(c, "noise", "NoiseMenu", lines="LinesNoise", maxlines=12, num=1500 if t else 120, tdefs=("plain", "bothnn"))
+    engine_union(c, t)
     c.rule, c.assumptions, c.exhaustive = ENGINE_RULE, ENGINE_ASSUME, True
     return c.finish()
 
@@ -648,6 +663,7 @@ def check_C15(tier):
     engine_sim(c, "count-distinct", "DistinctCountMenu", lines="LinesDistinct", maxlines=16, num=4000 if t else 500, modes=("batch",), invs=["TypeOK", "BatchRefinesSem"])
     laws_trace(c, 3 if t else 1, 400 if t else 150)
     engine_sim(c, "order", "OrderMenu", lines="LinesRich", maxlines=8, num=1500 if t else 120, modes=("batch",), invs=["TypeOK", "BatchRefinesSem"])
+    engine_union(c, t, joins=False)
     c.rule = ENGINE_RULE + (" PermLaw quantifies over all permutations of each enumerated input, CombineLaw over all cut points; the real code is run on every ordering (TLC enumerates all sequences) and, on the "
                             "repository's corpora, on seeded shuffles and cuts whose outputs are related by Trace_Laws.tla.")
     c.assumptions, c.exhaustive = ENGINE_ASSUME + ["REAL sums are only compared when exactly representable (dyadic)"], True
@@ -726,6 +742,7 @@ def check_C18(tier):
     # several statements in one process: what a statement prints does not depend on what ran before it (fresh engine, printer, DISTINCT memory, compiled patterns)
     session_run(c, "history", SESSION_CMDS, 3 if t else 2, formats=("text", "json", "csv") if t else ("text", "csv"))
     engine_sim(c, "determinism", "DistinctMenu", lines="Lines4", maxlines=10, num=1000 if t else 80)
+    engine_union(c, t)
     c.rule = ENGINE_RULE + (" Determinism of the model is checked through TLC's out-degree statistics (every state has at most one successor); every replayed behaviour must equal the model's unique output; "
                             "the CLI is run 4 times per case in fresh processes (fresh RandomState seeds), with unrelated tables defined before / after the queried one, and the outputs must be identical line by line.")
     c.assumptions, c.exhaustive = ENGINE_ASSUME + ["now() is excluded"], True
